@@ -25,7 +25,7 @@ type roundMon struct {
 	r   *core.Result
 	got map[string]map[string]map[string]bool // recipient -> type -> sender -> delivered on the right channel kind
 	// number of messages sent per (sender, type, recipient)
-	sent map[string]int
+	sent        map[string]int
 	skipWaiting bool // C07 uses the routing / counting part only
 	roundBefore int  // the recipient's round right before the current party call
 }
